@@ -7,6 +7,9 @@
 (*  WSection: ApplyW(recorded bytes, recorded relocations, symbol values)  *)
 (*            must be byte-identical to the directly written section       *)
 (*            (sections based at 0).                                       *)
+(*  WOutcome: both writes succeed or fail alike (a symbolic address must be *)
+(*            accepted wherever the resolved constant is, e.g. a symbolic  *)
+(*            root DW_AT_low_pc as the base of offset-pair lists).         *)
 (*  RSchema : every field the writer relocated must be read through a      *)
 (*            relocatable primitive (read_address / read_offset /          *)
 (*            read_sized_offset, same offset and size) when the directly   *)
@@ -31,13 +34,17 @@ WSection == /\ IsEv("WSection")
 (* that the reader can only read with read_address), .debug_frame (FDE     *)
 (* address_range, class addrlen) and .debug_aranges.                       *)
 StrictSecs == {".debug_info", ".debug_line", ".debug_rnglists", ".debug_loclists"}
+(* writing through the recording writer succeeds exactly when the direct    *)
+(* write of the same input with the symbols resolved does (same error)      *)
+WOutcome == /\ IsEv("WOutcome")
+            /\ Rec[l].rec = Rec[l].dir
 RSchema == /\ IsEv("RSchema")
            /\ LET r == Rec[l] IN
               /\ \A i \in DOMAIN r.wrel : \E j \in DOMAIN r.rprims : r.rprims[j] = r.wrel[i]
               /\ r.sec \in StrictSecs => \A j \in DOMAIN r.rprims : \E i \in DOMAIN r.wrel : r.wrel[i] = r.rprims[j]
 
 Init == l = 1 /\ buf = <<>> /\ le = TRUE /\ hs = <<>> /\ res = OkUnit
-Next == (WSection \/ RSchema) /\ UNCHANGED rvars
+Next == (WSection \/ RSchema \/ WOutcome) /\ UNCHANGED rvars
 Accepted == LET d == TLCGet("stats").diameter IN
             IF d - 1 = Len(Rec) THEN TRUE
             ELSE Print(<<"UNMATCHED", d, ToJson(Rec[d])>>, FALSE)
